@@ -635,7 +635,7 @@ func TestC06(t *testing.T) {
 	// every request answered under schedules the harness owns (engine of C07):
 	// 2-4 requests whose backend calls are released one at a time in a generated
 	// order, among them multi-step walks overtaken by renames and removals
-	schedSubCheck(h, env.PerShard(env.Pick(1200, 60000)), []string{"f", "k", "e", "dir"}, keepC06)
+	schedSubCheck(h, env.PerShard(env.Pick(2400, 60000)), []string{"f", "k", "e", "dir"}, keepC06)
 	record := func(c batchCase, st *batchStats, cls string) {
 		h.Case(evid.HashJSON(c), st.inFlightAtOnce >= 2, cls)
 		if st.dupInFlight > 0 {
